@@ -227,6 +227,44 @@ def check(model: Model, run: Run) -> None:
     run.rule('C10.R4', 'in the `except Notify` arm of Peer._run new_notification is called exactly once on every path where a transport exists, followed by _reset on all paths, with no other write in between; Protocol.close drops the connection and every writer starts with a connection guard', floor=4)
     _r4_once(model, run, runf)
 
+    # ------------------------------------------------------------------ R6 who writes a NOTIFICATION, and on what
+    run.rule(
+        'C10.R6',
+        'a NOTIFICATION is written in exactly one place, the `except Notify` arm of Peer._run (an error WE detected): no other '
+        'arm answers - a ProcessError or a Notification can come out of the reading of a NOTIFICATION the peer sent; and the '
+        'framing checks of Connection.reader / reader_async hand their error back without closing the transport first, so that '
+        'the NOTIFICATION can still be written',
+        floor=3,
+    )
+    sites6 = []
+    for fi in model.funcs.values():
+        for c in model.calls_to(fi.module, fi.node, 'Protocol.new_notification'):
+            sites6.append((fi, c))
+    arm6 = None
+    for t in runf.node.body:
+        if isinstance(t, ast.Try):
+            for h in t.handlers:
+                if handler_names(h) == ['Notify']:
+                    arm6 = h
+    for fi, c in sites6:
+        inside = arm6 is not None and fi is runf and any(x is c for x in ast.walk(arm6))
+        run.check(inside, fi.qualname, 'NOTIFICATION written from the `except Notify` arm of Peer._run', fi.loc(c), 'this call writes a NOTIFICATION outside the arm that handles the errors ExaBGP itself detected: on this path the session may be ending because the PEER sent a NOTIFICATION (read_message hands it to the API before raising it, and that hand-off can fail), and RFC 4271 forbids answering one')
+    if not sites6:
+        run.cannot('no call of Protocol.new_notification found')
+    for qn in ('exabgp.reactor.network.connection.Connection.reader_async', 'exabgp.reactor.network.connection.Connection.reader'):
+        f6 = model.func(qn)
+        run.analysed(f6)
+        exits = 0
+        closes = []
+        for iff in walk_no_nested(f6.node):
+            if not isinstance(iff, ast.If):
+                continue
+            if not any(isinstance(x, ast.Call) and model.call_matches(f6.module, x, 'NotifyError') for st_ in iff.body for x in ast.walk(st_)):
+                continue
+            exits += 1
+            closes += [x for st_ in iff.body for x in ast.walk(st_) if isinstance(x, ast.Call) and isinstance(x.func, ast.Attribute) and x.func.attr == 'close']
+        run.check(exits >= 2 and not closes, qn, 'header errors are handed back with the transport still open (%d error exits)' % exits, f6.loc(closes[0]) if closes else f6.loc(), 'the connection is closed before the error is returned: Peer._run still "sends" the NOTIFICATION, but the writer returns silently on a closed socket and nothing reaches the peer')
+
     # ------------------------------------------------------------------ R5
     run.rule('C10.R5', 'every registered message type is handled or refused in ESTABLISHED: UPDATE and ROUTE-REFRESH have handlers, KEEPALIVE feeds the timer, NOTIFICATION is raised by read_message, anything else (OPEN) must be refused with 5/3', floor=3)
     _r5_types(model, run, folder)
